@@ -47,6 +47,7 @@ def main():
     ap.add_argument("--ops", default="", help="comma list of operators to keep (default all)")
     a = ap.parse_args()
     os.makedirs(os.path.dirname(a.out), exist_ok=True)
+    os.makedirs(os.path.join(VERIF, "build"), exist_ok=True)
     mut = os.path.join(VERIF, "build", "mutate")
     rc, out = sh(["go", "build", "-o", mut, "."], cwd=os.path.join(VERIF, "tools", "mutate"))
     if rc != 0:
